@@ -450,7 +450,20 @@ struct Case {
 }
 
 fn run_case(w: &mut World, rng: &mut Rng, len: usize, matrix: Option<usize>) -> Case {
-    let (pk, _, acct) = w.ledger.new_account(false);
+    // two out of three random cases start from an account WITHOUT an XRD vault (an account created by
+    // `new_account` is funded from the faucet, which would hide the XRD clause of AllowExisting)
+    let (pk, acct) = if matrix.is_none() && !rng.chance(1, 3) {
+        let (pk, _) = w.ledger.new_key_pair();
+        let manifest = ManifestBuilder::new()
+            .lock_fee_from_faucet()
+            .new_account_advanced(OwnerRole::Fixed(rule!(require(signature(pk)))), None)
+            .build();
+        let receipt = w.ledger.execute_manifest(manifest, vec![]);
+        (pk, receipt.expect_commit(true).new_component_addresses()[0])
+    } else {
+        let (pk, _, acct) = w.ledger.new_account(false);
+        (pk, acct)
+    };
     let init = w.observe(acct);
     let mut obs = init.clone();
     let mut steps = Vec::new();
